@@ -435,7 +435,7 @@ pub fn engine_sizes(a: &Args) {
         if vi % stride != offset {
             continue;
         }
-        if boundary_only && v0 < (1 << 40) && v0 > 64 {
+        if boundary_only && (v0 as u64) < (1u64 << 40) && v0 > 64 {
             continue;
         }
         for state in ALL_STATES {
